@@ -245,7 +245,7 @@ int main(int argc, char **argv) {
   bsx::Report R;
   R.property = "C05"; R.part = "ring"; R.tier = a.tier;
   bool thorough = a.tier == "thorough";
-  double budget_s = thorough ? 840 : 45;
+  double budget_s = thorough ? 840 : 70;
   R.deadline_s = budget_s;
   std::vector<Cfg> base_cfgs;
   std::vector<int> nts = thorough ? std::vector<int>{1, 2, 3, 4} : std::vector<int>{1, 2, 3};
